@@ -431,7 +431,7 @@ class TRIAD:
         """
         if representation.lower() not in ['rotmat', 'quaternion']:
             raise ValueError(f"Given representation '{representation}' is NOT valid. Try 'rotmat', or 'quaternion'")
-        w1, w2 = np.copy(w1), np.copy(w2)
+        w1, w2 = np.array(w1, dtype=float), np.array(w2, dtype=float)   # Float copies: normalized in place below
         # Normalized Vectors
         w1 /= np.linalg.norm(w1)                            # (eq. 12-39a)
         w2 /= np.linalg.norm(w2)
